@@ -1,6 +1,8 @@
 package unserializers
 
 import (
+	"bytes"
+	"encoding/json"
 	"errors"
 	"fmt"
 	"io"
@@ -117,7 +119,31 @@ func readSPDXDocument(r io.Reader) (doc *spdx23.Document, err error) {
 			err = fmt.Errorf("malformed SPDX document: %v", p)
 		}
 	}()
-	return spdxjson.Read(r)
+	// The SPDX library reads element identifiers and actor strings from the
+	// raw JSON text: normalize the string escapes before handing the data over.
+	normalized, err := normalizeJSON(r)
+	if err != nil {
+		return nil, err
+	}
+	return spdxjson.Read(normalized)
+}
+
+// normalizeJSON decodes the JSON data in r and encodes it again, escaping
+// only the characters that cannot be written verbatim in a JSON string.
+func normalizeJSON(r io.Reader) (io.Reader, error) {
+	var data interface{}
+	decoder := json.NewDecoder(r)
+	decoder.UseNumber()
+	if err := decoder.Decode(&data); err != nil {
+		return nil, err
+	}
+	var buf bytes.Buffer
+	encoder := json.NewEncoder(&buf)
+	encoder.SetEscapeHTML(false)
+	if err := encoder.Encode(data); err != nil {
+		return nil, err
+	}
+	return &buf, nil
 }
 
 // packageToNode assigns the data from an SPDX package into a new Node
